@@ -161,9 +161,19 @@ def _loop_of(b, site):
 
 def sink_seq(b, sites, value_of, resolve_vec=True):
     """Sequence fed into a sink by the call sites `sites` (all on one sink object), in dominance order.  value_of(site) -> the value operand."""
-    sites = sorted(sites, key=lambda c: len([d for d in sites if b.dominates(d.bb, c.bb)]))
+    # order of the sites in time: a site inside a loop is placed by the header of that loop (the body of a loop that may run zero times dominates nothing after it)
+    def anchor(c):
+        nx_ = _loop_of(b, c)
+        return nx_.bb if nx_ is not None else c.bb
+    anch = {id(c): anchor(c) for c in sites}
+
+    def before(d, c):
+        if anch[id(d)] == anch[id(c)]:
+            return b.dominates(d.bb, c.bb)
+        return b.dominates(anch[id(d)], anch[id(c)])
+    sites = sorted(sites, key=lambda c: len([d for d in sites if d is not c and before(d, c)]))
     for i in range(len(sites) - 1):
-        if not b.dominates(sites[i].bb, sites[i + 1].bb) and not (sites[i].bb == sites[i + 1].bb):
+        if not before(sites[i], sites[i + 1]) and not (sites[i].bb == sites[i + 1].bb):
             return None
     out = []
     for c in sites:
